@@ -929,3 +929,243 @@ func c36FilterSubject(c *Ctx) {
 		}
 	}
 }
+
+// ---------------------------------------------------------------------------------------
+// C38: the family of a configured CIDR and whether it is a default (/0) must be decided on the prefix that is actually inserted
+// (after an IPv4-mapped prefix was re-based to IPv4), not on a value captured before the re-basing. (Seed C38: addr/maskBits
+// were hoisted above the un-mapping, so ::ffff:a.b.c.d/96+n rules counted as IPv6 rules and a mapped default was not a default.)
+func init() {
+	p := registry["C38"]
+	orig, origCan := p.Run, p.Canaries
+	p.Run = func(c *Ctx) { orig(c); c38InsertedPrefixDecides(c) }
+	p.Canaries = func(c *Ctx) []Canary {
+		return append(origCan(c),
+			Canary{Name: "family-and-default-from-values-captured-before-rebasing", File: "allow_list.go", Old: "\t\tif a := ipNet.Addr(); a.Is4In6() {\n\t\t\t// ::ffff:a.b.c.d/96+n means a.b.c.d/n\n\t\t\tif ipNet.Bits() < 96 {\n\t\t\t\treturn nil, fmt.Errorf(\"config `%s` has an IPv4-mapped CIDR shorter than /96: %s\", k, rawCIDR)\n\t\t\t}\n\t\t\tipNet = netip.PrefixFrom(a.Unmap(), ipNet.Bits()-96)\n\t\t}\n\n\t\ttree.Insert(ipNet, value)\n\n\t\tmaskBits := ipNet.Bits()\n\n\t\tvar rules *allowListRules\n\t\tif ipNet.Addr().Is4() {", New: "\t\taddr, maskBits := ipNet.Addr(), ipNet.Bits()\n\t\tif addr.Is4In6() {\n\t\t\tif maskBits < 96 {\n\t\t\t\treturn nil, fmt.Errorf(\"config `%s` has an IPv4-mapped CIDR shorter than /96: %s\", k, rawCIDR)\n\t\t\t}\n\t\t\tipNet = netip.PrefixFrom(addr.Unmap(), maskBits-96)\n\t\t}\n\n\t\ttree.Insert(ipNet, value)\n\n\t\tvar rules *allowListRules\n\t\tif addr.Is4() {", Rule: "C38.inserted-prefix-decides"})
+	}
+}
+
+func c38InsertedPrefixDecides(c *Ctx) {
+	c.Rule("C38.inserted-prefix-decides", "K11 + reachability within one loop iteration: in newAllowList the prefix whose address decides the family (Is4) and whose length decides 'is a default' (Bits() == 0) is the value handed to tree.Insert - the same SSA value, or loads of the same variable with no store to it between the load and the insert", 2)
+	fn := c.Func(Ref{"", "", "newAllowList"})
+	if fn == nil {
+		return
+	}
+	prefixM := func(name string) Ref { return Ref{"net/netip", "Prefix", name} }
+	parsed := func(v ssa.Value) bool {
+		return derivesFrom(v, sliceThrough, isCallTo(Ref{"net/netip", "", "ParsePrefix"}))
+	}
+	// the insert of the configured entry
+	var insert ssa.CallInstruction
+	eachInstr(fn, func(in ssa.Instruction) {
+		ci, ok := in.(ssa.CallInstruction)
+		if !ok {
+			return
+		}
+		o := calleeObj(ci)
+		if o == nil || o.Name() != "Insert" || o.Pkg() == nil || !strings.Contains(o.Pkg().Path(), "bart") {
+			return
+		}
+		a := callArgs(ci)
+		if len(a) >= 2 && parsed(a[1]) {
+			insert = ci
+		}
+	})
+	if insert == nil {
+		c.Unknown("C38.inserted-prefix-decides", "newAllowList:insert", "the insert of the configured prefix was not found")
+		return
+	}
+	inserted := callArgs(insert)[1]
+	loops := naturalLoops(fn)
+	back := map[Edge]bool{}
+	for _, l := range loops {
+		for b := range l.Body {
+			for i, s := range b.Succs {
+				if s == l.Header {
+					back[Edge{b, i}] = true
+				}
+			}
+		}
+	}
+	// stale(v): v is not the inserted value / is a load of the same variable with a store in between
+	stale := func(v ssa.Value) string {
+		v, w := stripValue(v), stripValue(inserted)
+		if v == w {
+			return ""
+		}
+		lv, ok1 := v.(*ssa.UnOp)
+		lw, ok2 := w.(*ssa.UnOp)
+		if !ok1 || !ok2 || lv.Op != token.MUL || lw.Op != token.MUL || lv.X != lw.X {
+			return "it is a different value than the one inserted into the tree (" + exprString(v) + ")"
+		}
+		al, ok := lv.X.(*ssa.Alloc)
+		if !ok {
+			return ""
+		}
+		bad := ""
+		if refs := al.Referrers(); refs != nil {
+			for _, r := range *refs {
+				st, ok := r.(*ssa.Store)
+				if !ok || st.Addr != ssa.Value(al) {
+					continue
+				}
+				r1, _ := c.avoidsCutEdges(fn, lv, st, func(ssa.Instruction) bool { return false }, back)
+				r2, _ := c.avoidsCutEdges(fn, st, insert.(ssa.Instruction), func(ssa.Instruction) bool { return false }, back)
+				if r1 && r2 {
+					bad = "the variable is re-assigned at " + c.instrPos(st) + " between this read and the insert"
+				}
+			}
+		}
+		return bad
+	}
+	prefixOf := func(v ssa.Value, method string) ssa.Value {
+		call, _ := callOf(v)
+		if call == nil || !matchFunc(calleeObj(call), prefixM(method)) {
+			return nil
+		}
+		return callArgs(call)[0]
+	}
+	n := 0
+	eachInstr(fn, func(in ssa.Instruction) {
+		switch x := in.(type) {
+		case *ssa.Call:
+			// family: <prefix>.Addr().Is4()
+			if matchFunc(calleeObj(x), Ref{"net/netip", "Addr", "Is4"}) {
+				recv := callArgs(x)[0]
+				var pfx ssa.Value
+				backSlice(recv, sliceLocal, func(y ssa.Value) {
+					if p := prefixOf(y, "Addr"); p != nil && pfx == nil && parsed(p) {
+						pfx = p
+					}
+				})
+				if pfx == nil {
+					return
+				}
+				n++
+				why := stale(pfx)
+				c.Check(why == "", "C38.inserted-prefix-decides", fmt.Sprintf("newAllowList:family#%d", n), c.instrPos(in), "family decided on the inserted prefix", "the address family of a rule is decided on a prefix that is not the one inserted: "+why+"; an IPv4-mapped rule is accounted to the IPv6 defaults")
+			}
+		case *ssa.BinOp:
+			// default: <prefix>.Bits() == 0
+			if x.Op != token.EQL && x.Op != token.NEQ {
+				return
+			}
+			for _, pr := range [][2]ssa.Value{{x.X, x.Y}, {x.Y, x.X}} {
+				if k, ok := constInt(pr[1]); !ok || k != 0 {
+					continue
+				}
+				var pfx ssa.Value
+				backSlice(pr[0], sliceLocal, func(y ssa.Value) {
+					if p := prefixOf(y, "Bits"); p != nil && pfx == nil && parsed(p) {
+						pfx = p
+					}
+				})
+				if pfx == nil {
+					continue
+				}
+				n++
+				why := stale(pfx)
+				c.Check(why == "", "C38.inserted-prefix-decides", fmt.Sprintf("newAllowList:default#%d", n), c.instrPos(in), "default decided on the inserted prefix", "whether a rule is the family default is decided on a prefix length that is not the inserted one: "+why+"; a mapped default (::ffff:0.0.0.0/96) is not recognised")
+			}
+		}
+	})
+}
+
+// ---------------------------------------------------------------------------------------
+// C14 / C12: the replay window may be advanced only by an authenticated packet. (Seed C14b: Decrypt / VerifyRelay called
+// window.Update up front "to take the lock once" - a forged header then burns the genuine packet's counter or slides the window.)
+func init() {
+	for _, id := range []string{"C14", "C12"} {
+		id := id
+		p := registry[id]
+		orig, origCan := p.Run, p.Canaries
+		p.Run = func(c *Ctx) { orig(c); cWindowAfterAuth(c, id+".window-after-auth") }
+		p.Canaries = func(c *Ctx) []Canary {
+			return append(origCan(c), Canary{Name: "window-updated-before-authentication", File: "connection_state.go", Old: "\tcs.decryptLock.Lock()\n\tresult := cs.window.Check(l, messageCounter)\n\tcs.decryptLock.Unlock()\n\tif !result {\n\t\treturn nil, ErrAlreadySeen\n\t}\n", New: "\tcs.decryptLock.Lock()\n\tresult := cs.window.Update(l, messageCounter)\n\tcs.decryptLock.Unlock()\n\tif !result {\n\t\treturn nil, ErrAlreadySeen\n\t}\n", Rule: id + ".window-after-auth"})
+		}
+	}
+}
+
+func cWindowAfterAuth(c *Ctx, rule string) {
+	c.Rule(rule, "K1: in ConnectionState.Decrypt and VerifyRelay every window.Update (the only window mutation) is reached only after DecryptDanger returned a nil error for the same packet", 2)
+	for _, name := range []string{"Decrypt", "VerifyRelay"} {
+		fn := c.Func(Ref{"", "ConnectionState", name})
+		if fn == nil {
+			continue
+		}
+		sinks := callSinks(fn, "window.Update", callTo(Ref{"", "Bits", "Update"}))
+		auth := gErrNil("DecryptDanger returned nil", CallSpec{Refs: []Ref{{"noiseutil", "CipherState", "DecryptDanger"}}})
+		c.requireGuards(rule, fn, sinks, "window.Update", auth)
+	}
+}
+
+// ---------------------------------------------------------------------------------------
+// C09: the address lists that identify a peer must not share storage. (Seed C09b: NewRemoteList kept the caller's slice and
+// RefreshFromHandshake reused the backing array, so a later handshake on the same RemoteList rewrote an installed tunnel's
+// HostInfo.vpnAddrs in place: the recorded addresses no longer were the verified certificate's.)
+func init() {
+	p := registry["C09"]
+	orig, origCan := p.Run, p.Canaries
+	p.Run = func(c *Ctx) { orig(c); c09NoAlias(c) }
+	p.Canaries = func(c *Ctx) []Canary {
+		return append(origCan(c),
+			Canary{Name: "remote-list-keeps-callers-address-slice", File: "remote_list.go", Old: "\t\tvpnAddrs:  make([]netip.Addr, len(vpnAddrs)),\n", New: "\t\tvpnAddrs:  vpnAddrs,\n", Rule: "C09.no-alias"},
+			Canary{Name: "refresh-reuses-backing-array", File: "remote_list.go", Old: "\tr.vpnAddrs = make([]netip.Addr, len(vpnAddrs))\n\tcopy(r.vpnAddrs, vpnAddrs)\n", New: "\tr.vpnAddrs = append(r.vpnAddrs[:0], vpnAddrs...)\n", Rule: "C09.no-alias"})
+	}
+}
+
+func c09NoAlias(c *Ctx) {
+	c.Rule("C09.no-alias", "K11: every value stored into RemoteList.vpnAddrs is a slice freshly allocated in the storing function (make / a literal), never a parameter, another object's slice or a re-slice of the field's own backing array", 2)
+	f := c.Field("", "RemoteList", "vpnAddrs")
+	if f == nil {
+		return
+	}
+	n := 0
+	for _, fn := range c.moduleFuncs() {
+		eachInstr(fn, func(in ssa.Instruction) {
+			st, ok := in.(*ssa.Store)
+			if !ok {
+				return
+			}
+			fa, ok := st.Addr.(*ssa.FieldAddr)
+			if !ok || fieldOfAddr(fa) != f {
+				return
+			}
+			n++
+			var fresh func(v ssa.Value, d int) bool
+			fresh = func(v ssa.Value, d int) bool {
+				if d > 6 {
+					return false
+				}
+				switch x := v.(type) {
+				case *ssa.MakeSlice:
+					return true
+				case *ssa.Slice:
+					if al, ok := x.X.(*ssa.Alloc); ok {
+						_ = al
+						return true // slice of a fresh array literal
+					}
+					return false
+				case *ssa.Const:
+					return x.Value == nil // nil slice
+				case *ssa.Phi:
+					for _, e := range x.Edges {
+						if !fresh(e, d+1) {
+							return false
+						}
+					}
+					return true
+				case *ssa.Call:
+					if builtinName(x) == "append" {
+						// append(fresh-or-nil, ...) is fresh; append(existing[:0], ...) re-uses storage
+						return fresh(x.Call.Args[0], d+1)
+					}
+					if o := calleeObj(x); o != nil && o.Pkg() != nil && o.Pkg().Path() == "slices" && o.Name() == "Clone" {
+						return true
+					}
+				}
+				return false
+			}
+			c.Check(fresh(st.Val, 0), "C09.no-alias", fmt.Sprintf("%s:RemoteList.vpnAddrs#%d", fnName(fn), n), c.instrPos(in), "freshly allocated", "RemoteList.vpnAddrs is set to a slice that shares storage with another holder (a parameter, another field or its own old backing array): a later refresh rewrites the address list of an installed tunnel in place, so its recorded addresses stop being the verified certificate's")
+		})
+	}
+}
